@@ -35,7 +35,7 @@ def load_findings():
     return json.load(open(p, encoding='utf-8')).get('findings', [])
 
 
-def build(prop, tier, seed, workdir, refine=(), opaque=()):
+def build(prop, tier, seed, workdir, refine=(), opaque=(), external=()):
     """generate the Verus file for a property; returns (info, obligations, gen_path)"""
     from . import cells
     cfg = PROPS[prop]
@@ -50,7 +50,7 @@ def build(prop, tier, seed, workdir, refine=(), opaque=()):
         t, o = lemmas.load(os.path.join(VERIF, 'lemmas', name + '.rs'), name.upper())
         texts.append(t)
     # first pass without generated cells to learn keycodes / layouts
-    pre = gen.generate(REPO, os.path.join(VERIF, 'contracts'), opaque=opaque)
+    pre = gen.generate(REPO, os.path.join(VERIF, 'contracts'), opaque=opaque, external=external)
     aux = {}
     for g in cfg.get('cellgens', []):
         t, o, a = getattr(cells, g)(pre, prop, tier, VERIF, refine)
@@ -59,7 +59,7 @@ def build(prop, tier, seed, workdir, refine=(), opaque=()):
         aux.update(a or {})
     os.makedirs(workdir, exist_ok=True)
     gen_path = os.path.join(workdir, 'gen.rs')
-    info = gen.generate(REPO, os.path.join(VERIF, 'contracts'), texts, out_path=gen_path, opaque=opaque)
+    info = gen.generate(REPO, os.path.join(VERIF, 'contracts'), texts, out_path=gen_path, opaque=opaque, external=external)
     info.aux = aux
     return info, obligations, gen_path
 
@@ -265,24 +265,29 @@ def main(argv=None):
 
     # ------------------------------------------------------------------ deductive verdict
     try:
-        for attempt in range(4):
-            info, lemma_obs, gen_path = build(prop, tier, seed, workdir, opaque=tuple(sorted(opaque)))
+        external = set()
+        for attempt in range(6):
+            info, lemma_obs, gen_path = build(prop, tier, seed, workdir, opaque=tuple(sorted(opaque)), external=tuple(sorted(external)))
             R = relevant_obligations(prop, info, lemma_obs)
             res = verus.run(gen_path, info, seed=seed, multiple_errors=50)
             mine, tool, other = classify(prop, res.failures, R, info)
             opaque |= set(info.opaque)
             if not tool:
                 break
-            new = offending_functions(tool, info) - opaque
-            if not new:
+            off = offending_functions(tool, info)
+            new = off - opaque
+            again = (off & opaque) - external
+            if not new and not again:
                 break
-            # the verifier cannot read these functions: leave them unverified and decide the rest
+            # the verifier cannot read these functions: leave them unverified and decide the rest; a function that is still
+            # rejected as external_body (its very signature is unsupported) is hidden from the verifier altogether
             opaque |= new
+            external |= again
         # refine failing coarse units cell by cell so that the failing cells are named
         coarse_failed = sorted(set(R[f.oid]['unit'] for f in mine if f.oid in R and R[f.oid]['kind'] == 'coarse' and f.kind == 'semantic'))
         refined = False
         if coarse_failed and tier != 'thorough' and not tool:
-            info, lemma_obs, gen_path = build(prop, tier, seed, workdir, refine=tuple(coarse_failed), opaque=tuple(sorted(opaque)))
+            info, lemma_obs, gen_path = build(prop, tier, seed, workdir, refine=tuple(coarse_failed), opaque=tuple(sorted(opaque)), external=tuple(sorted(external)))
             R = relevant_obligations(prop, info, lemma_obs)
             res = verus.run(gen_path, info, seed=seed, multiple_errors=50)
             mine, tool, other = classify(prop, res.failures, R, info)
